@@ -9,13 +9,18 @@
 (* State machine: any party may try to open any hop with any scalar that   *)
 (* is known at that point (the final key, the partial secrets, a second    *)
 (* chain's scalars, and whatever earlier openings released).               *)
+(* Refund keys: for the hops in `refunds` the signature lock is a PTLC     *)
+(* (claim branch: the hop key; refund branch: that hop's refund key after  *)
+(* the timeout).  Which hops have refund keys must not change which scalar *)
+(* opens which hop; a refund-key holder can take back exactly its own hop, *)
+(* only after the timeout, and that releases nothing.                      *)
 (***************************************************************************)
 EXTENDS SymCrypto, Json, IOUtils, TLC
 
-CONSTANTS Family, Emit, MaxHops
-VARIABLES n, opened, known, last
+CONSTANTS Family, Emit, MaxHops, MaxRefundHops
+VARIABLES n, opened, known, last, refunds
 
-vars == <<n, opened, known, last>>
+vars == <<n, opened, known, last, refunds>>
 
 Y(i) == SVar(Atom("y", i))                         \* partial secret of party i
 RECURSIVE K(_)
@@ -38,25 +43,36 @@ InitKnown(nn) == {Named("K", nn - 1, K(nn - 1))} \cup {Named("y", i, Y(i)) : i \
 
 TraceLog == IF Family = "trace" THEN JsonDeserialize(IOEnv.TRACE_FILE) ELSE <<>>
 Init == IF Family = "trace"
-        THEN \E i \in 1..Len(TraceLog) : n = TraceLog[i].n /\ opened = {} /\ known = {} /\ last = [hop |-> -2, nm |-> "", ix |-> i, ok |-> FALSE]
-        ELSE /\ n \in 2..MaxHops /\ opened = {} /\ known = InitKnown(n) /\ last = [hop |-> -1, nm |-> "", ix |-> 0, ok |-> FALSE]
+        THEN \E i \in 1..Len(TraceLog) : n = TraceLog[i].n /\ opened = {} /\ known = {} /\ refunds = {}
+                                         /\ last = [hop |-> -2, nm |-> "", ix |-> i, ok |-> FALSE, tm |-> ""]
+        ELSE /\ n \in 2..MaxHops /\ opened = {} /\ known = InitKnown(n) /\ last = [hop |-> -1, nm |-> "", ix |-> 0, ok |-> FALSE, tm |-> ""]
+             /\ refunds \in (IF n <= MaxRefundHops THEN SUBSET (0..(n - 1)) ELSE {{}, 0..(n - 1), {0}, {n - 1}})
 Try(i, s) ==
     /\ i \notin opened
     /\ IF Opens(i, s.v)
        THEN /\ opened' = opened \cup {i}
             /\ known' = known \cup (IF i > 0 THEN {Named("K", i - 1, Release(Extracted(i, s.v), i))} ELSE {})
        ELSE UNCHANGED <<opened, known>>
-    /\ last' = [hop |-> i, nm |-> s.nm, ix |-> s.ix, ok |-> Opens(i, s.v)]
-    /\ UNCHANGED n
-Next == Family # "trace" /\ \E i \in 0..(n - 1), s \in known : Try(i, s)
+    /\ last' = [hop |-> i, nm |-> s.nm, ix |-> s.ix, ok |-> Opens(i, s.v), tm |-> ""]
+    /\ UNCHANGED <<n, refunds>>
+\* the holder of hop j's refund key signs for the refund branch of hop i's lock, before / after the timeout
+RefundOpens(i, j, tm) == i \in refunds /\ j = i /\ tm = "after"
+TryRefund(i, j, tm) ==
+    /\ i \notin opened
+    /\ last' = [hop |-> i, nm |-> "F", ix |-> j, ok |-> RefundOpens(i, j, tm), tm |-> tm]
+    /\ UNCHANGED <<n, opened, known, refunds>>
+Next == Family # "trace" /\ (\/ \E i \in 0..(n - 1), s \in known : Try(i, s)
+                             \/ \E i \in 0..(n - 1) : \E j \in refunds \cup {i}, tm \in {"before", "after"} : TryRefund(i, j, tm))
 Spec == Init /\ [][Next]_vars
 
 \* ---- invariants ---------------------------------------------------------------------------------------
 \* hop i is opened only after hop i + 1 (right to left)
 OnlyRightToLeft == \A i \in opened : \A j \in (i + 1)..(n - 1) : j \in opened
 \* only the right scalar opens a hop
-WrongScalarFails == last.ok => \E s \in known : s.nm = "K" /\ s.ix = last.hop /\ s.v = K(last.hop)
+WrongScalarFails == last.ok /\ last.nm # "F" => \E s \in known : s.nm = "K" /\ s.ix = last.hop /\ s.v = K(last.hop)
 RightScalarOnly == \A i \in 0..(n - 1), s \in known : Opens(i, s.v) <=> s.v = K(i)
+\* a refund key takes back exactly its own hop, only after the timeout; hops without refund keys have no refund branch
+RefundOnlyOwn == last.nm = "F" /\ last.ok => last.hop \in refunds /\ last.ix = last.hop /\ last.tm = "after"
 \* what an opening releases is exactly the next-left key
 ReleaseExact == \A s \in known : s.nm = "K" => s.v = K(s.ix)
 \* the setup every party sees is consistent: Y_{i-1} + y_i G = Y_i; the final key opens the last lock
@@ -65,11 +81,13 @@ SetupConsistent == \A i \in 1..(n - 1) : SAdd(K(i - 1), Y(i)) = K(i)
 CascadeCompletes == Family = "trace" \/ opened = 0..(n - 1) \/ LET i == CHOOSE j \in 0..(n - 1) : j \notin opened /\ \A m \in (j + 1)..(n - 1) : m \in opened
                                            IN \E s \in known : s.v = K(i)
 
-Out == [n |-> n, opened |-> opened, hop |-> last.hop, nm |-> last.nm, ix |-> last.ix, expect |-> IF last.ok THEN "opens" ELSE "fails"]
+Out == [n |-> n, opened |-> opened, refunds |-> refunds, hop |-> last.hop, nm |-> last.nm, ix |-> last.ix, tm |-> last.tm, expect |-> IF last.ok THEN "opens" ELSE "fails"]
 EmitCase == last.hop < 0 \/ ~Emit \/ PrintT(ToJson(Out))
 \* trace cases: [n, hop, nm, ix, got]: an attempt recorded from the implementation
 ScalarOf(nm, ix) == CASE nm = "K" -> K(ix) [] nm = "y" -> Y(ix) [] nm = "B" -> KB(ix) [] OTHER -> SZero
+TraceExpect(t) == IF t.nm = "F" THEN (\E q \in 1..Len(t.refunds) : t.refunds[q] = t.hop) /\ t.ix = t.hop /\ t.tm = "after"
+                  ELSE Opens(t.hop, ScalarOf(t.nm, t.ix))
 TraceCheck == last.hop # -2 \/ LET t == TraceLog[last.ix] IN
-                 PrintT(ToJson([i |-> last.ix, v |-> IF t.got = (IF Opens(t.hop, ScalarOf(t.nm, t.ix)) THEN "opens" ELSE "fails") THEN "ok" ELSE "verdict"]))
-View == <<n, opened, last>>
+                 PrintT(ToJson([i |-> last.ix, v |-> IF t.got = (IF TraceExpect(t) THEN "opens" ELSE "fails") THEN "ok" ELSE "verdict"]))
+View == <<n, opened, last, refunds>>
 =============================================================================
